@@ -14,13 +14,19 @@ CHECK = {
     "packages": ["./actor", "./internal/commands"],
     "harness": ["actor/zz_verif_rd.go", "actor/zz_verif_c44.go", "internal/commands/zz_verif_rd.go"],
     "entries": [
-        {"fn": P + "vC44_step", "replay": "model-only", "cases": {"kind": [0, 1, 2, 3, 4, 5, 6]},
+        {"fn": P + "vC44_step", "replay": "model-only", "cases_quick": {"kind": [0, 1, 2, 3, 4, 5, 6, 7, 8], "seqBits": [16], "jobs": [2]},
+         "cases_thorough": {"kind": [0, 1, 2, 3, 4, 5, 6, 7, 8], "seqBits": [16, 61], "jobs": [3]},
+         "opts_quick": {"loop_bounds": {W + "dispatchPending": 3, W + "nextEligibleBinding": 3}},
+         "may_be_unreachable": ("a job is handed only to a binding with free demand (the worker sequence never passes demandUpTo)",
+                                "a new binding starts a fresh sequence space and receives work only under demand",
+                                "DeliveryConfirmed names an accepted job and goes to the producer", "DeliveryConfirmed carries the job's store sequence",
+                                "each job of the confirmed prefix is reported to the producer exactly once"),
          "cover_optional": ("terminated", "job-confirmed", "job-accepted", "job-requeued", "dispatched", "joined")},
     ],
-    "opts": {"unwind": 8, "substitute": SUB, "feasibility": False, "fresh_solver": True,
+    "opts": {"unwind": 8, "substitute": SUB, "feasibility": False, "batch_fresh": True, "reach_fresh": True, "equalfold_ascii": True,
              "loop_bounds": {W + "dispatchPending": 4, W + "nextEligibleBinding": 3}},
     "stop": [k for k in SUB.keys() if k.startswith("(*" + P)],
-    "timeout_ms": {"quick": 400000, "thorough": 1800000},
+    "timeout_ms": {"quick": 600000, "thorough": 3000000},
     "explanation": "TODO",
     "bounds": {},
 }
